@@ -796,6 +796,9 @@ impl Mon {
         // C05: no instance requested twice
         for (id, rq) in &reqs {
             let k = inst_key(rq);
+            if self.analysis.calls.get(&rq.function).map(|c| c.multi).unwrap_or(false) {
+                continue; // the last instruction of a stream fold runs once per generation
+            }
             if let Some((old, oeid)) = self.issued[peer].get(&k) {
                 let dd = format!("peer {peer} eid {eid}: call instance {k} requested again under id {id} (first under id {old} at eid {oeid})");
                 self.report(w, Some(idx), "C05", "requested-twice", dd);
@@ -822,7 +825,7 @@ impl Mon {
                 continue;
             }
             let unused = find_call(&w.sc.ast, &rq.function).map(|n| matches!(n, Node::Call { out: crate::script::Out::None, .. })).unwrap_or(true);
-            if unused {
+            if unused || self.analysis.calls.get(&rq.function).map(|c| c.multi).unwrap_or(false) {
                 continue;
             }
             let matching: Vec<_> = states.iter().filter(|s| s.2 == rq.function && s.3 == rq.arg_hash).collect();
